@@ -10,6 +10,7 @@ import Driver.Sched
 import Driver.Exec
 import Driver.Cancel
 import Driver.Launch
+import Driver.Shell
 open Lean
 
 /-- line protocol: one JSON op per input line, one canonical JSON answer per line -/
@@ -35,5 +36,6 @@ def main (args : List String) : IO UInt32 := do
   | ["exec"] => loop stdin Driver.Exec.handle; return 0
   | ["cancel"] => loop stdin Driver.Cancel.handle; return 0
   | ["launch"] => loop stdin Driver.Launch.handle; return 0
+  | ["shell"] => loop stdin Driver.Shell.handle; return 0
   | ["cause"] => loop stdin Driver.AgentCause.handle; return 0
   | _ => IO.eprintln "usage: rpmodel <suite>"; return 2
